@@ -176,7 +176,20 @@ fn main() {
         }}
         st
     }).reduce(Stats::default, Stats::merge);
-    let sb = sb.merge(sb2);
+    // (b2') decorations: what tools and people put around a version (ref paths, requirement operators, quotes, file
+    // suffixes, revision suffixes) on either side of every accepted string up to length 7, parser and check command
+    let pre_dec = ["refs/tags/", "refs/heads/", "refs/remotes/origin/", "refs/", "tags/", "origin/", "release-", "release/", "version-", "version ", "version=", "ver", "V", "v.", "vv", "=", "==", "^", "~", ">=", "@", "#", "\"", "'", "semver:", "tag:", "r", "rel", "/", "./", "+", "-", "."];
+    let post_dec = ["^{}", "^0", "~1", "/", "\"", "'", ".tar.gz", ".zip", ",", ";", ":", "@", "!", "*", ".x", ".*", "-SNAPSHOT", "+", "-", "."];
+    let sb2d = lang.par_iter().filter(|s| s.len() <= 7).map(|s| {
+        let mut st = Stats::default();
+        for x in pre_dec.iter().map(|d| format!("{d}{s}")).chain(post_dec.iter().map(|d| format!("{s}{d}"))).chain([format!("\"{s}\""), format!("'{s}'"), format!("refs/tags/{s}^{{}}")]) {
+            st.inc("decorated_cases");
+            let v = judge(&x, true, &mut st);
+            report(&ctx, &x, "b2d", v, &mut st);
+        }
+        st
+    }).reduce(Stats::default, Stats::merge);
+    let sb = sb.merge(sb2).merge(sb2d);
 
     // (b3) long inputs: lengths around 2^7, 2^8, 2^10, 2^12, 2^16 (a parser working on a bounded prefix or buffer)
     let mut sl = Stats::default();
@@ -269,7 +282,7 @@ fn main() {
     cov.evaluations = cov.states;
     cov.traces_validated = cov.states;
     cov.distinct_nontrivial = all.get("model_accepts") + sb.get("edits");
-    cov.rule = format!("(a) every string over {sigma9:?} up to length {la} (check command on length <= {lcheck}); (b) every string accepted by the reference DFA up to length {lb} over [0 1 2 a - . + v] and each of its single-symbol insertions/deletions/substitutions over {edit_syms:?} (edits introducing white space also through the check command); (b2) every accepted string up to length 7 padded left/right with 8 white-space strings (ASCII and Unicode), parser and check command; (b3) ten long-input shapes at lengths 120..65536; (c) boundary numerals x numeric positions. non-trivial = strings the reference accepts plus strings within one edit of an accepted one (evaluations, duplicates between (a) and (b) not removed)");
+    cov.rule = format!("(a) every string over {sigma9:?} up to length {la} (check command on length <= {lcheck}); (b) every string accepted by the reference DFA up to length {lb} over [0 1 2 a - . + v] and each of its single-symbol insertions/deletions/substitutions over {edit_syms:?} (edits introducing white space also through the check command); (b2) every accepted string up to length 7 padded left/right with 8 white-space strings (ASCII and Unicode), parser and check command; (b2') the same strings with 33 leading and 20 trailing decorations (ref paths, requirement operators, quotes, file and revision suffixes); (b3) ten long-input shapes at lengths 120..65536; (c) boundary numerals x numeric positions. non-trivial = strings the reference accepts plus strings within one edit of an accepted one (evaluations, duplicates between (a) and (b) not removed)");
     cov.exhaustive = true;
     cov.samples = vec![json!("1.0.0-0a.٣"), json!(lang[lang.len() / 2]), json!(lang[lang.len() - 1]), c_samples[0].clone()];
     cov.set("clause_counts", all.to_json());
